@@ -23,7 +23,7 @@ func init() {
 			"element of the call's own Arguments. R4: the account written is the sender or destination parameter or LoadAccount(a) with a the protocol's destination argument or SystemAccountAddress. R5: account-level mutators are called " +
 			"only by the function that owns them (who-may-call table); RemoveAccount/Commit/RevertToSnapshot/RecreateTrie/SetOwnerAddress/IncreaseNonce by nobody. R6: the classifier behind the non-contract guard reads exactly bytes [0,8) of the address (shared with C20-R5). Does NOT decide: the frame condition as an observed world diff, stored values.",
 		Trusted: []string{"the interfaces of interface.go are the only way to reach world state (no reflection/unsafe: C13-R3)", "protocol argument layout for destination addresses"},
-		Rules:   []func(*Ctx){c05r1, c05r2, c05r3, c05r5, c05r6},
+		Rules:   []func(*Ctx){c05r1, c05r2, c05r3, c05r5, c05r6, c05r7},
 	})
 }
 
@@ -540,4 +540,11 @@ func c05r5(c *Ctx) {
 		}
 	}
 	_ = constant.MakeBool
+}
+
+// c05r7: "changes only the protocol entries of the tokens named in its input": the key that names the token is the
+// function's own — built by append on a prefix without spare capacity, so that two executions running under the read lock
+// cannot write their token identifiers into one shared backing array (shared with C13-R2).
+func c05r7(c *Ctx) {
+	c.shareRule(c13r2, "C13-R2", "C05-R7", "storage keys are built on prefixes without spare capacity (an execution's key cannot be overwritten by a concurrent one)", nil)
 }
